@@ -1066,7 +1066,7 @@ Qed.
 
 Lemma restore_svc_bi v s s' : restore_svc v s = Some s' -> bi_of s' = bi_of s.
 Proof.
-  unfold restore_svc. destruct (init_check (s_opts s)); [discriminate|].
+  unfold restore_svc. destruct (init_check v (s_opts s)); [discriminate|].
   intros H; inversion H; subst. reflexivity.
 Qed.
 
@@ -1206,7 +1206,7 @@ Qed.
 Lemma exec_inv v st c : st_inv st -> st_inv (snd (exec v st c)).
 Proof.
   intros Hi. pose proof Hi as [Hs Hd]. destruct c as [name o t tg|name tg|name pct al|name|name fa|name msg|name|name|]; cbn [exec].
-  - destruct (init_check (normalize o)); [exact Hi|].
+  - destruct (init_check v (normalize o)); [exact Hi|].
     apply deploy_into_inv; [exact Hi|].
     destruct (svc_get (st_services st) name); apply normalize_wf.
   - destruct (svc_get (st_services st) name) as [s|] eqn:E; [|exact Hi].
@@ -1251,19 +1251,19 @@ Lemma deploy_exec_cases v st name o t targets :
   let r := exec v st (Deploy name o t targets) in
   let T := table_of (st_services st) in
   let c := conflicts T name (o_hosts (normalize o)) (o_prefixes (normalize o)) in
-  (exists e, init_check (normalize o) = Some e /\ r = (Err e, st)) \/
-  (init_check (normalize o) = None /\ early_ok targets = false /\ snd r = st /\
+  (exists e, init_check v (normalize o) = Some e /\ r = (Err e, st)) \/
+  (init_check v (normalize o) = None /\ early_ok targets = false /\ snd r = st /\
      (fst r = Err EInvalidTarget \/ fst r = Err EUnhealthy)) \/
-  (init_check (normalize o) = None /\ early_ok targets = true /\ c = true /\
+  (init_check v (normalize o) = None /\ early_ok targets = true /\ c = true /\
      fst r = Err EHostInUse /\ st_services (snd r) = st_services st) \/
-  (init_check (normalize o) = None /\ early_ok targets = true /\ c = false /\
+  (init_check v (normalize o) = None /\ early_ok targets = true /\ c = false /\
      fst r = Ok /\ table_of (st_services (snd r)) = tbl_set T (new_bi name o)).
 Proof.
-  cbv zeta. cbn [exec]. destruct (init_check (normalize o)) as [e|]; [left; eauto|]. right.
+  cbv zeta. cbn [exec]. destruct (init_check v (normalize o)) as [e|]; [left; eauto|]. right.
   set (s := match svc_get (st_services st) name with
             | Some old => mkSvc name (normalize o) t (s_active old) (s_rollout old) (s_pause old)
-                                (s_roll old) (o_tls (normalize o))
-            | None => mkSvc name (normalize o) t [] None pause_new None (o_tls (normalize o))
+                                (s_roll old) (wants_cert v (normalize o))
+            | None => mkSvc name (normalize o) t [] None pause_new None (wants_cert v (normalize o))
             end).
   assert (En : s_name s = name) by (unfold s; destruct (svc_get (st_services st) name); reflexivity).
   assert (Eo : s_opts s = normalize o) by (unfold s; destruct (svc_get (st_services st) name); reflexivity).
@@ -1277,7 +1277,7 @@ Qed.
 
 Lemma deploy_ok_inv v st name o t targets :
   fst (exec v st (Deploy name o t targets)) = Ok ->
-  init_check (normalize o) = None /\ early_ok targets = true /\
+  init_check v (normalize o) = None /\ early_ok targets = true /\
   conflicts (table_of (st_services st)) name (o_hosts (normalize o)) (o_prefixes (normalize o)) = false /\
   table_of (st_services (snd (exec v st (Deploy name o t targets)))) =
     tbl_set (table_of (st_services st)) (new_bi name o).
@@ -1295,7 +1295,7 @@ Proof. unfold early_ok. apply andb_true_iff. Qed.
 
 (** A deploy whose earlier phases pass is decided by the ownership test alone. *)
 Lemma deploy_decided v st name o t targets :
-  init_check (normalize o) = None ->
+  init_check v (normalize o) = None ->
   forallb valid_target_name (map tg_name targets) = true -> forallb tg_healthy targets = true ->
   let r := fst (exec v st (Deploy name o t targets)) in
   let foreign := exists h p n, In h (o_hosts (normalize o)) /\ In p (o_prefixes (normalize o)) /\
@@ -1314,7 +1314,7 @@ Proof.
 Qed.
 
 Lemma deploy_conflict_rejected v st name o t targets h p n :
-  init_check (normalize o) = None ->
+  init_check v (normalize o) = None ->
   forallb valid_target_name (map tg_name targets) = true -> forallb tg_healthy targets = true ->
   In h (o_hosts (normalize o)) -> In p (o_prefixes (normalize o)) ->
   In (h, p, n) (triples (table_of (st_services st))) -> n <> name ->
@@ -1361,7 +1361,7 @@ Qed.
 
 Lemma remove_then_deploy v st name st1 name2 o t targets :
   exec v st (Remove name) = (Ok, st1) ->
-  init_check (normalize o) = None ->
+  init_check v (normalize o) = None ->
   forallb valid_target_name (map tg_name targets) = true -> forallb tg_healthy targets = true ->
   (forall h p n, In h (o_hosts (normalize o)) -> In p (o_prefixes (normalize o)) ->
      In (h, p, n) (triples (table_of (st_services st))) -> n = name \/ n = name2) ->
